@@ -24,6 +24,10 @@ theorem sld_existence (f : String) (n : Nat) :
 theorem userPred_true : userPred "true" 0 = false := by
   simp [userPred, reservedNames]
 
+theorem toW3 {fl : Bool} {tmpl : Term} {max : Nat} {prog : List Term} {lv : Lv} {d : Nat} {p : Pr} {m : MS}
+    {ans0 : List Term} {r : SLD.Res} {A B : Prop} (h : PSpec fl tmpl max prog lv d p m ans0 r ∧ A ∧ B) :
+    PSpecW fl tmpl max prog lv d p m ans0 r ∧ A ∧ B := ⟨h.1.toW, h.2⟩
+
 /-- a call of a user predicate (`arrive` past the builtin dispatch) -/
 theorem call_user {fl : Bool} {tmpl : Term} {max : Nat} {prog : List Term} (hprog : ∀ c ∈ prog, clauseS fl c = true)
     {N : Nat} {env1 : Env} {σ1 : Subst} {π : Nat → Nat} {D : Nat → Prop} {nv : Nat}
@@ -41,7 +45,7 @@ theorem call_user {fl : Bool} {tmpl : Term} {max : Nat} {prog : List Term} (hpro
     {n' d l : Nat} {r : SLD.Res}
     (hs : SLD.solve false (progS prog) (n' + 1) d nv (.goal (img σ1 π g) l :: R') q
       (max - m.user.answers.length) = some r) :
-    PSpec fl tmpl max prog lv d p m1 m.user.answers r ∧ StOK prog m1 ∧ m.user.nextVar ≤ m1.user.nextVar := by
+    PSpecW fl tmpl max prog lv d p m1 m.user.answers r ∧ StOK prog m1 ∧ m.user.nextVar ≤ m1.user.nextVar := by
   have hres : functorName g ∉ reservedNames := reserved_not_user hu
   obtain ⟨args2, hfun, hlen⟩ := functor_img (σ := σ1) (π := π) hshape
   rw [solve_user _ _ _ _ _ _ _ _ _ _ _ hfun hres, hlen] at hs
@@ -61,7 +65,7 @@ theorem call_user {fl : Bool} {tmpl : Term} {max : Nat} {prog : List Term} (hpro
     simp only [Prod.mk.injEq] at harr
     obtain ⟨rfl, rfl⟩ := harr
     rw [sld_existence]
-    exact ⟨.err rfl, hst, hN'⟩
+    exact toW3 ⟨.err rfl, hst, hN'⟩
   | some pr =>
     have harr := harr1 pr hl
     have hcl := hsome pr hl
@@ -91,7 +95,7 @@ theorem call_user {fl : Bool} {tmpl : Term} {max : Nat} {prog : List Term} (hpro
         rw [hcs] at hs
         simpa [List.map_map, Function.comp_def] using hs
     rw [hp, hm1]
-    refine ⟨.alts rfl (Nat.pos_iff_ne_zero.1 hst.2) hshape ?_ hs', ⟨hst.1, Nat.succ_pos _⟩, Nat.le_refl _⟩
+    refine toW3 ⟨.alts rfl (Nat.pos_iff_ne_zero.1 hst.2) hshape ?_ hs', ⟨hst.1, Nat.succ_pos _⟩, Nat.le_refl _⟩
     refine ⟨N, σ1, π, D, G', hN, hW1, hcg', hgr', hco', hq, hgD, altsRel_of_forall ?_⟩
     intro it hit
     simp only [its, List.mem_map, List.mem_filter, decide_eq_true_eq] at hit
@@ -115,7 +119,7 @@ theorem call_boot {fl : Bool} {tmpl : Term} {max : Nat} {prog : List Term} (hpro
     {n d : Nat} {r : SLD.Res} (hrel : AltsRel fl σ1 π D nv d g its)
     (hs : SLD.solveAlts false (progS prog) n d nv (its.filterMap (·.2)) R' q
       (max - m.user.answers.length) = some r) :
-    PSpec fl tmpl max prog lv d p m1 m.user.answers r ∧ StOK prog m1 ∧ m.user.nextVar ≤ m1.user.nextVar := by
+    PSpecW fl tmpl max prog lv d p m1 m.user.answers r ∧ StOK prog m1 ∧ m.user.nextVar ≤ m1.user.nextVar := by
   obtain ⟨pr, hpr, hcl⟩ := hboot
   have hl : lookupProc m.user (functorName g) (argList g).length = some pr := by
     rw [lookupProc_stOK hst, lookup_other prog hprog _ _ hu, hpr]
@@ -128,7 +132,7 @@ theorem call_boot {fl : Bool} {tmpl : Term} {max : Nat} {prog : List Term} (hpro
     have : m1 = (clausesCall pr.clauses (argList g) K' env1 m).2 := by rw [harr]
     rw [this]; rfl
   rw [hp, hm1]
-  exact ⟨.alts rfl (Nat.pos_iff_ne_zero.1 hst.2) hshape ⟨N, σ1, π, D, G', hN, hW1, hcg', hgr', hco', hq, hgD, hrel⟩ hs,
+  exact toW3 ⟨.alts rfl (Nat.pos_iff_ne_zero.1 hst.2) hshape ⟨N, σ1, π, D, G', hN, hW1, hcg', hgr', hco', hq, hgD, hrel⟩ hs,
     ⟨hst.1, Nat.succ_pos _⟩, Nat.le_refl _⟩
 
 /-- the clause `call/1` compiles for the instantiated goal `g'` against the reference's frames for
@@ -154,7 +158,12 @@ theorem call_item {fl : Bool} {tmpl : Term} {N : Nat} {env : Env} {σ : Subst} {
     · exact (qHead_hasVar g' x).1 hx
     · exact hx
   refine ⟨hW2, fun v hv' => Or.inr (hgv v ((qHead_hasVar g' v).1 hv')), ?_⟩
-  refine .frames (fun x => π x + nv) (2 * nv) (tauC g' π nv) (clauseC_of_S (clauseS_qClause hb hw)) rfl (by omega)
+  have hcast : ∀ Fs : List SLD.Frame, AltRel fl σ π (fun v => D v ∨ RV σ D v) nv d (qHead g') (qClause g')
+      (some (.frames (Fs ++ ([] : List Nat).map skipF))) →
+      AltRel fl σ π (fun v => D v ∨ RV σ D v) nv d (qHead g') (qClause g') (some (.frames Fs)) := by
+    intro Fs h; simpa using h
+  apply hcast
+  refine .frames (fun x => π x + nv) (2 * nv) (tauC g' π nv) [] (clauseC_of_S (clauseS_qClause hb hw)) rfl (by omega)
     (fun x y hx hy hxy => hW.inj x y (hgv x (hcv x hx)) (hgv y (hcv y hy))
       (by have : π x + nv = π y + nv := hxy
           omega))
@@ -180,19 +189,20 @@ theorem call_item {fl : Bool} {tmpl : Term} {N : Nat} {env : Env} {σ : Subst} {
       subst hz
       exact hπg x (hcv x hx))
     ?_
-  show Forall2 _ (SLD.conjuncts g') (SLD.bodyFrames false (g'.rename π) d)
+  show FrRel _ d (SLD.conjuncts g') (SLD.bodyFrames false (g'.rename π) d)
   simp only [SLD.bodyFrames, Bool.false_eq_true, if_false, conjuncts_rename, List.map_map]
   have key : ∀ Bs : List Term, (∀ bg ∈ Bs, ∀ v, bg.hasVar v = true → g'.hasVar v = true) →
-      Forall2 (fun bg fr => ∃ l, fr = SLD.Frame.goal ((bg.rename (fun x => π x + nv)).subst (tauC g' π nv)) l ∧
-        (bg = .atom "!" → l = d)) Bs (Bs.map ((fun x => SLD.Frame.goal x d) ∘ Term.rename π)) := by
+      FrRel (fun bg => (bg.rename (fun x => π x + nv)).subst (tauC g' π nv)) d Bs
+        (Bs.map ((fun x => SLD.Frame.goal x d) ∘ Term.rename π)) := by
     intro Bs
     induction Bs with
     | nil => intro _; exact .nil
     | cons bg Bs ih =>
       intro hB
-      refine .cons ⟨d, ?_, fun _ => rfl⟩ (ih (fun b hb' => hB b (by simp [hb'])))
-      simp only [Function.comp]
-      rw [tauC_a (fun v hv' => hB bg (by simp) v hv')]
+      have := FrRel.cons (inst := fun bg => (bg.rename (fun x => π x + nv)).subst (tauC g' π nv)) (d := d) (bg := bg) d
+        (fun _ => rfl) (ih (fun b hb' => hB b (by simp [hb'])))
+      simp only [tauC_a (fun v hv' => hB bg (by simp) v hv')] at this
+      exact this
   exact key _ (fun bg hbg v hv' => conjuncts_vars hbg hv')
 
 theorem cont_run {fl : Bool} (tmpl : Term) (max : Nat) (prog : List Term) (hprog : ∀ c ∈ prog, clauseS fl c = true) :
@@ -202,34 +212,28 @@ theorem cont_run {fl : Bool} (tmpl : Term) (max : Nat) (prog : List Term) (hprog
         SimAt fl tmpl max lv K env m.user.nextVar R q nv (fun _ _ _ => True) → StOK prog m →
         ∀ (n d : Nat) (r : SLD.Res),
           SLD.solve false (progS prog) n d nv R q (max - m.user.answers.length) = some r →
-          PSpec fl tmpl max prog lv d p m1 m.user.answers r ∧ StOK prog m1 ∧ m.user.nextVar ≤ m1.user.nextVar := by
+          PSpecW fl tmpl max prog lv d p m1 m.user.answers r ∧ StOK prog m1 ∧ m.user.nextVar ≤ m1.user.nextVar := by
   intro fuel
   induction fuel using Nat.strongRecOn with
   | _ fuel ih =>
   intro K env m p m1 hrun hfine lv R q nv hsim hst n d r hs
   obtain ⟨N, σ, π, D, G, hN, hW, hcg, hgr, hco, hq, _⟩ := hsim
-  cases n with
-  | zero => rw [solve_zero] at hs; cases hs
-  | succ n' =>
-  rcases cont_step hcg fuel env m (p, m1) hrun with ⟨hG, hres⟩ | ⟨g, cpg, G', K', fuel', hG, hcg', hf', hhg, harr⟩ |
-    ⟨cp, G', pc, vars, k, hG, hcg', hres⟩
-  rotate_left 2
-  · -- the cut
-    subst hG
-    cases hgr with
-    | @cons _ fr _ R' hhd hgr' =>
-    obtain ⟨_, l, rfl, hl⟩ := hhd
-    simp only [Prod.mk.injEq] at hres
-    obtain ⟨rfl, rfl⟩ := hres
-    rw [show img σ π (Term.atom "!") = .atom "!" from rfl, solve_cut] at hs
-    simp only [Option.map_eq_some_iff] at hs
-    obtain ⟨r', hr', rfl⟩ := hs
-    refine ⟨.cut rfl (hl rfl) hN hW hcg' hgr' hco.tail hq ?_ hr', hst, Nat.le_refl _⟩
-    intro it hit hcut l' hl'
-    exact (List.pairwise_cons.1 hco.2).1 it hit rfl hcut l l' (hl rfl) hl'
-  · -- an answer
-    subst hG
-    cases hgr
+  induction hgr generalizing n d r with
+  | skip l0 _ ihs =>
+    -- a `call(true)` of the reference: one call deeper
+    obtain ⟨n1, r1, hs1, rfl⟩ := solve_skip_some hs
+    obtain ⟨h1, h2, h3⟩ := ihs n1 (d + 1) r1 hs1 hcg hco
+    exact ⟨h1.wrap, h2, h3⟩
+  | nil =>
+    cases n with
+    | zero => rw [solve_zero] at hs; cases hs
+    | succ n' =>
+    rcases cont_step hcg fuel env m (p, m1) hrun with ⟨hG, hres⟩ | ⟨g, cpg, G', K', fuel', hG, _⟩ |
+      ⟨cp, G', pc, vars, k, hG, _⟩
+    rotate_left
+    · cases hG
+    · cases hG
+    -- an answer
     rw [solve_nil] at hs
     simp only [Option.some.injEq] at hs
     subst hs
@@ -238,12 +242,48 @@ theorem cont_run {fl : Bool} (tmpl : Term) (max : Nat) (prog : List Term) (hprog
     refine ⟨?_, hst, Nat.le_refl _⟩
     have := PSpec.answer (fl := fl) (tmpl := tmpl) (max := max) (prog := prog) (lv := lv) (d := d) (m := recordAnswer tmpl env m)
       (ans0 := m.user.answers) (a := app env tmpl) (q := q) rfl (hq ▸ ansRel_of_sim hW)
-    exact this
+    exact this.toW
+  | @cons g0 G' fr R' hhd hgr' _ =>
+  cases n with
+  | zero => rw [solve_zero] at hs; cases hs
+  | succ n' =>
+  rcases cont_step hcg fuel env m (p, m1) hrun with ⟨hG, hres⟩ | ⟨g, cpg, G'', K', fuel', hG, hcg', hf', hhg, harr⟩ |
+    ⟨cp, G'', pc, vars, k, hG, hcg', hres⟩
+  · cases hG
+  rotate_left
+  · -- the cut
+    simp only [List.cons.injEq] at hG
+    obtain ⟨rfl, rfl⟩ := hG
+    obtain ⟨_, l, hfr, hl⟩ := hhd
+    rcases hfr with rfl | ⟨⟨x, hx⟩, _⟩
+    rotate_left
+    · cases hx
+    simp only [Prod.mk.injEq] at hres
+    obtain ⟨rfl, rfl⟩ := hres
+    rw [show img σ π (Term.atom "!") = .atom "!" from rfl, solve_cut] at hs
+    simp only [Option.map_eq_some_iff] at hs
+    obtain ⟨r', hr', rfl⟩ := hs
+    refine toW3 ⟨.cut rfl (hl rfl) hN hW hcg' hgr' hco.tail hq ?_ hr', hst, Nat.le_refl _⟩
+    intro it hit hcut l' hl'
+    exact (List.pairwise_cons.1 hco.2).1 it hit rfl hcut l l' (hl rfl) hl'
   · -- a goal
-    subst hG
-    cases hgr with
-    | @cons _ fr _ R' hhd hgr' =>
-    obtain ⟨hgD, l, rfl, _⟩ := hhd
+    simp only [List.cons.injEq] at hG
+    obtain ⟨rfl, rfl⟩ := hG
+    obtain ⟨hgD, l, hfr, _⟩ := hhd
+    suffices main : ∀ (n' d l : Nat) (r : SLD.Res),
+        SLD.solve false (progS prog) (n' + 1) d nv (.goal (img σ π g) l :: R') q (max - m.user.answers.length) = some r →
+        PSpecW fl tmpl max prog lv d p m1 m.user.answers r ∧ StOK prog m1 ∧ m.user.nextVar ≤ m1.user.nextVar by
+      rcases hfr with rfl | ⟨⟨x, rfl⟩, rfl⟩
+      · exact main n' d l r hs
+      · -- the reference calls `call(call(G))`: one call deeper
+        obtain ⟨n1, r1, hs1, rfl⟩ := solve_callw_some (c := img σ π x) hs
+        cases n1 with
+        | zero => rw [solve_zero] at hs1; cases hs1
+        | succ n2 =>
+          obtain ⟨h1, h2, h3⟩ := main n2 (d + 1) d r1 hs1
+          exact ⟨h1.wrap, h2, h3⟩
+    clear hs hfr
+    intro n' d l r hs
     have hco' : CutsOK lv G' := hco.tail
     cases fuel' with
     | zero => simp [arrive] at harr
@@ -289,11 +329,13 @@ theorem cont_run {fl : Bool} (tmpl : Term) (max : Nat) (prog : List Term) (hprog
           simp only [functorName, argList, Args.toList] at hpr
           rw [hpr] at harr
           simpa [functorName, argList, Args.toList] using harr
-        · refine .cons ?_ (.vcut ?_ rfl)
-          · refine altRel_match (θ0 := θ0) hW1 hgD clauseC_ite1 rfl (by rw [hig]; rfl) bv_ite1 ?_
-            exact .cons ⟨d, rfl, fun _ => rfl⟩ (.cons ⟨d, rfl, fun _ => rfl⟩ (.cons ⟨l, rfl, fun h => by cases h⟩ .nil))
-          · refine altRel_match (θ0 := θ0) hW1 hgD clauseC_ite2 rfl (by rw [hig]; rfl) bv_ite2 ?_
-            exact .cons ⟨d, rfl, fun _ => rfl⟩ (.cons ⟨l, rfl, fun h => by cases h⟩ .nil)
+        · refine .cons ?_ (.vcut ?_ rfl rfl)
+          · have := altRel_match (fl := true) (d := d) (θ0 := θ0) [] hW1 hgD clauseC_ite1 rfl (by rw [hig]; rfl) bv_ite1
+              (.cons d (fun _ => rfl) (.cons d (fun _ => rfl) (.cons l (fun h => by cases h) .nil)))
+            exact this
+          · have := altRel_match (fl := true) (d := d) (θ0 := θ0) [] hW1 hgD clauseC_ite2 rfl (by rw [hig]; rfl) bv_ite2
+              (.cons d (fun _ => rfl) (.cons l (fun h => by cases h) .nil))
+            exact this
       | ifthen c t hx =>
         subst hx
         subst hfl
@@ -312,8 +354,9 @@ theorem cont_run {fl : Bool} (tmpl : Term) (max : Nat) (prog : List Term) (hprog
           rw [hpr] at harr
           simpa [functorName, argList, Args.toList] using harr
         · refine .cons ?_ .nil
-          refine altRel_match (θ0 := θ0) hW1 hgD clauseC_ifthen1 rfl (by rw [hig]; rfl) bv_ifthen1 ?_
-          exact .cons ⟨d, rfl, fun _ => rfl⟩ (.cons ⟨d, rfl, fun _ => rfl⟩ (.cons ⟨l, rfl, fun h => by cases h⟩ .nil))
+          have := altRel_match (fl := true) (d := d) (θ0 := θ0) [] hW1 hgD clauseC_ifthen1 rfl (by rw [hig]; rfl) bv_ifthen1
+            (.cons d (fun _ => rfl) (.cons d (fun _ => rfl) (.cons l (fun h => by cases h) .nil)))
+          exact this
       | call x hx =>
       -- call/1
       subst hx
@@ -343,7 +386,7 @@ theorem cont_run {fl : Bool} (tmpl : Term) (max : Nat) (prog : List Term) (hprog
         rw [hix, solve_call_var] at hs
         simp only [SLD.raise, Option.some.injEq] at hs
         subst hs
-        exact ⟨.err (F := instErr) (c2 := .var 0) rfl, hst, hN'⟩
+        exact toW3 ⟨.err (F := instErr) (c2 := .var 0) rfl, hst, hN'⟩
       · have hnv0 : ∀ v, g0 ≠ .var v := fun v hv' => hv ⟨v, hv'⟩
         rcases hcase with ⟨v, hv'⟩ | ⟨g', happ, hw, hb⟩
         · exact absurd hv' (hnv0 v)
@@ -375,7 +418,7 @@ theorem cont_run {fl : Bool} (tmpl : Term) (max : Nat) (prog : List Term) (hprog
         obtain ⟨hW2, hgD2, hitem⟩ := call_item (fl := fl) (d := d) hW1 hb hw hgv
         have hgr2 : GRel lv σ1 π (fun v => D v ∨ RV σ1 D v) G' R' :=
           hgr1.step_id (fun v hv' => Or.inl hv') (fun _ _ => rfl)
-        refine ⟨.alts (its := [(qClause g', some (.frames (SLD.bodyFrames false (g'.rename π) d)))])
+        refine toW3 ⟨.alts (its := [(qClause g', some (.frames (SLD.bodyFrames false (g'.rename π) d)))])
           (g := qHead g') rfl (Nat.pos_iff_ne_zero.1 hst.2) (qHead_shape g')
           ⟨N, σ1, π, _, G', hN, hW2, hcg', hgr2, hco', hq1, hgD2, .cons hitem .nil⟩
           (by simpa [SLD.bodyFrames] using hs), ⟨hst.1, Nat.succ_pos _⟩, Nat.le_refl _⟩
@@ -401,7 +444,7 @@ theorem cont_run {fl : Bool} (tmpl : Term) (max : Nat) (prog : List Term) (hprog
           rw [this]; rfl
         rw [img_atom, solve_true] at hs
         rw [hp, hm1]
-        exact ⟨.direct rfl (Nat.pos_iff_ne_zero.1 hst.2) hcode hvars
+        exact toW3 ⟨.direct rfl (Nat.pos_iff_ne_zero.1 hst.2) hcode hvars
           ⟨N, σ1, π, D, G', hN, hW1, hcg', hgr1, hco', hq1, trivial⟩ hs, ⟨hst.1, Nat.succ_pos _⟩, Nat.le_refl _⟩
       · -- user atom
         have hres : fn ∉ reservedNames := reserved_not_user hu
@@ -463,7 +506,7 @@ theorem cont_run {fl : Bool} (tmpl : Term) (max : Nat) (prog : List Term) (hprog
             rw [hr] at hs
             simp only [SLD.failed, Option.some.injEq] at hs
             subst hs
-            exact ⟨.fail rfl, hst, Nat.le_refl _⟩
+            exact toW3 ⟨.fail rfl, hst, Nat.le_refl _⟩
           | occurs => rw [hr] at hs; simp at hs
           | outOfFuel => rw [hr] at hs; simp at hs
         | occurs =>
@@ -477,7 +520,7 @@ theorem cont_run {fl : Bool} (tmpl : Term) (max : Nat) (prog : List Term) (hprog
             rw [hr] at hs
             simp only [SLD.failed, Option.some.injEq] at hs
             subst hs
-            exact ⟨.fail rfl, hst, Nat.le_refl _⟩
+            exact toW3 ⟨.fail rfl, hst, Nat.le_refl _⟩
           | occurs => rw [hr] at hs; simp at hs
           | outOfFuel => rw [hr] at hs; simp at hs
     · -- user compound
